@@ -250,3 +250,50 @@ def _(self: Obj(SegXMCD, header=XHDR, config_data=Bytes(lo=0, hi=4091), padding=
     returns(4 + len(self.config_data), label="size-is-the-length-of-the-export")
     pure()
     sample_with(lambda rnd: {"self": SegXMCD(XMCDHeader(), bytes(rnd.randrange(0, 300)))})
+
+
+# ----------------------------------------------------------------------------------------------------------------------
+# CSF Authenticate Data command (spsdk/image/commands.py): the block list in the command is the one that was given
+# ----------------------------------------------------------------------------------------------------------------------
+from spsdk.image.commands import CmdAuthData, EnumAuthDat, EnumCertFormat, EnumEngine  # noqa: E402
+from spsdk.image.header import CmdHeader as CsfCmdHeader  # noqa: E402
+
+inline("spsdk.image.commands:CmdBase.export", "spsdk.image.commands:CmdBase.size", "spsdk.image.commands:CmdAuthData.key_index",
+       "spsdk.image.commands:CmdAuthData.engine", "spsdk.image.header:CmdHeader.tag")
+_FMT = OneOf(EnumCertFormat.CMS, EnumCertFormat.AEAD)
+_ENG = OneOf(EnumEngine.ANY, EnumEngine.CAAM, EnumEngine.DCP)
+
+
+def AUTDAT(k):
+    return Obj(CmdAuthData, _header=Obj(CsfCmdHeader, _tag=Const(0xCA), param=OneOf(0, 1), length=Const(12 + 8 * k)), _key_index=Range(0, 5), sig_format=_FMT,
+               _engine=_ENG, engine_cfg=U8, location=U32, _blocks=ListOf(ListOf(U32, 2), k))
+
+
+def _mk_aut(rnd):
+    c = CmdAuthData(rnd.choice(list(EnumAuthDat)), rnd.randrange(6), rnd.choice([EnumCertFormat.CMS, EnumCertFormat.AEAD]),
+                    rnd.choice([EnumEngine.ANY, EnumEngine.CAAM, EnumEngine.DCP]), rnd.getrandbits(8), rnd.getrandbits(32))
+    for _ in range(rnd.randrange(0, 4)):
+        c.append(rnd.getrandbits(32), rnd.getrandbits(32))
+    return c
+
+
+@contract("spsdk.image.commands:CmdAuthData.append")
+def _(self: Union[AUTDAT(0), AUTDAT(1), AUTDAT(2)], start_address: U32, size: U32):
+    ensures(len(self._blocks) == old(len(self._blocks)) + 1 and self._blocks[len(self._blocks) - 1][0] == start_address
+            and self._blocks[len(self._blocks) - 1][1] == size, label="block-appended-as-given")
+    ensures(self._header.length == 12 + 8 * len(self._blocks), label="command-length-follows-the-block-count")
+    modifies(self._blocks, self._header.length)
+    sample_with(lambda rnd: {"self": _mk_aut(rnd), "start_address": rnd.getrandbits(32), "size": rnd.getrandbits(32)})
+
+
+@contract("spsdk.image.commands:CmdAuthData.export")
+def _(self: Union[AUTDAT(0), AUTDAT(1), AUTDAT(2), AUTDAT(3)]) -> bytes:
+    let(k=len(self._blocks))
+    ensures(len(result) == 12 + 8 * k, label="header-parameters-then-8-bytes-per-block")
+    ensures(result[0] == 0xCA and result[1] * 256 + result[2] == 12 + 8 * k and result[3] == self._header.param, label="tag-length-flags")
+    ensures(result[4] == self._key_index and result[5] == self.sig_format.tag and result[6] == self._engine.tag and result[7] == self.engine_cfg
+            and int.from_bytes(result[8:12], "big") == self.location, label="key-format-engine-config-location")
+    ensures(all(int.from_bytes(result[12 + 8 * i: 16 + 8 * i], "big") == self._blocks[i][0] and int.from_bytes(result[16 + 8 * i: 20 + 8 * i], "big") == self._blocks[i][1]
+                for i in range(k)), label="blocks-address-then-size-big-endian-in-order")
+    modifies(self._header.length)
+    sample_with(lambda rnd: {"self": _mk_aut(rnd)})
